@@ -40,6 +40,33 @@ Definition blob_fields (sid user service alg bits : list Z) : list field :=
 Definition session_blob (sid user service alg bits : list Z) : result (list Z) :=
   encode_all (blob_fields sid user service alg bits).
 
+(* ---- the publickey signature: string(algorithm) ++ string(raw signature) ---------- *)
+(* algorithm.replace("-cert-v01@openssh.com", ""): every non-overlapping occurrence, left to right *)
+Definition s_cert_suffix : list Z :=
+  [45;99;101;114;116;45;118;48;49;64;111;112;101;110;115;115;104;46;99;111;109].
+Fixpoint is_prefix (p s : list Z) : bool :=
+  match p, s with
+  | [], _ => true
+  | x :: p', y :: s' => (x =? y) && is_prefix p' s'
+  | _ :: _, [] => false
+  end.
+Fixpoint replace_aux (pat : list Z) (skip : nat) (s : list Z) : list Z :=
+  match s with
+  | [] => []
+  | c :: r =>
+      match skip with
+      | S k => replace_aux pat k r
+      | O => if is_prefix pat s then replace_aux pat (length pat - 1) r
+             else c :: replace_aux pat 0 r
+      end
+  end.
+Definition strip_cert (alg : list Z) : list Z := replace_aux s_cert_suffix 0 alg.
+(* sig.get_binary(): the algorithm name the signature claims (Message semantics of C39) *)
+Definition sig_alg (sig : list Z) : list Z := fst (get_string sig 0).
+
+(* outcome of key.verify_ssh_sig(blob, sig): True, False, or an exception escapes *)
+Inductive vres := VTrue | VFalse | VRaise.
+
 (* ---- vocabulary --------------------------------------------------------- *)
 (* AUTH_SUCCESSFUL / AUTH_PARTIALLY_SUCCESSFUL / AUTH_FAILED / an InteractiveQuery object
    (anything that is none of the three constants behaves like RQuery outside the
@@ -151,7 +178,7 @@ Definition h_service (st : astate) (e : env) (service : list Z) : astate * list 
 
 (* ---- _parse_userauth_request ---------------------------------------------- *)
 Section WithSig.
-Variable sig_ok : list Z -> list Z -> list Z -> bool.   (* bits, blob, signature *)
+Variable sig_ok : list Z -> list Z -> list Z -> vres.   (* bits, blob, signature *)
 Variable sid : list Z.                                   (* transport.session_id *)
 
 Definition h_publickey (st : astate) (e : env) (user service : list Z)
@@ -166,9 +193,14 @@ Definition h_publickey (st : astate) (e : env) (user service : list Z)
         else match session_blob sid user service alg (e_bits e) with
              | Raise x => then_do (st, [cb]) (fun s => raise_out s x)
              | Ok blob =>
-                 if sig_ok (e_bits e) blob sig
-                 then then_do (st, [cb]) (fun s => send_auth_result s r)
-                 else then_do (st, [cb]) (fun s => send_auth_result s RFailed)
+                 (* the signature must name the declared algorithm (cert suffix stripped) *)
+                 if negb (beq (sig_alg sig) (strip_cert alg))
+                 then then_do (st, [cb]) (fun s => send_auth_result s RFailed)
+                 else match sig_ok (e_bits e) blob sig with
+                      | VTrue => then_do (st, [cb]) (fun s => send_auth_result s r)
+                      | VFalse => then_do (st, [cb]) (fun s => send_auth_result s RFailed)
+                      | VRaise => then_do (st, [cb]) (fun s => raise_out s (LibExc 2))
+                      end
              end
     end.
 
@@ -334,7 +366,15 @@ Definition canon_state (st : astate) : list Z :=
 (* ---- toy signature scheme for the correspondence run (same definition in the harness) -- *)
 Definition toy_mac (bits blob : list Z) : list Z :=
   be_encode 4 (fold_left (fun h b => (h * 31 + b + 7) mod 4294967291) (bits ++ 256 :: blob) 17).
-Definition toy_sig_ok (bits blob sig : list Z) : bool := beq sig (toy_mac bits blob).
+(* the toy key reads string(algorithm), string(mac); the mac "RAISE" makes it raise *)
+Definition toy_sig_ok (bits blob sig : list Z) : vres :=
+  let '(_, p) := get_string sig 0 in
+  let m := fst (get_string sig p) in
+  if beq m [82;65;73;83;69] then VRaise
+  else if beq m (toy_mac bits blob) then VTrue else VFalse.
+(* a well-formed toy signature *)
+Definition toy_sign (alg bits blob : list Z) : list Z :=
+  be_encode 4 (Z.of_nat (length (strip_cert alg))) ++ strip_cert alg ++ [0;0;0;4] ++ toy_mac bits blob.
 
 (* run_auth (sid, steps): per step, the canonical outputs followed by the state *)
 Fixpoint run_trace (sid : list Z) (st : astate) (steps : list (amsg * env)) : list Z :=
